@@ -23,6 +23,33 @@ Theorem c11_sign : forall hmac, (forall a k d, length (hmac a k d) = output_size
   sign hmac p (sent_prefix sent_id m) (smode_of d) a key = Ok (spec_sign (mac_fn_of hmac) d m t (alg_s a) key).
 Proof. exact sign_spec. Qed.
 
+(* Writer::finish_with_mac with BOTH set_edns and a signing set_tsig: the OPT RR (RFC 6891 6.1.2, with the
+   upper extended-RCODE bits in its TTL) is appended first, and the TSIG RDATA / MAC are the RFC 8945 ones
+   for the message INCLUDING that OPT RR - it precedes the TSIG RR, so it is under the MAC. *)
+Theorem c11_finish_edns_tsig : forall hmac, (forall a k d, length (hmac a k d) = output_size a) ->
+  forall p t d m a key sent_id e,
+  prepared_repr p t -> t_alg t = salg_name (alg_s a) -> wf_smsg m ->
+  (N.of_nat (length (t_other t)) < 65536)%N -> (N.of_nat (length (dmode_mac d)) <= 65535)%N ->
+  (N.of_nat (wire_len (t_alg t) + 16 + output_size a + length (t_other t)) <= 65535)%N ->
+  (e_extended_rcode_upper_bits e < 256)%N ->
+  let m' := with_opt m (e_udp_payload_size e) (e_extended_rcode_upper_bits e) in
+  finish_tail hmac (sent_prefix sent_id m) (Some e) (Some (tmode_of d a key, p)) =
+  Ok (sent_prefix sent_id m',
+      Some (fst (spec_sign (mac_fn_of hmac) d m' t (alg_s a) key),
+            Some (snd (spec_sign (mac_fn_of hmac) d m' t (alg_s a) key)))).
+Proof. exact finish_edns_tsig_spec. Qed.
+
+(* ... and without EDNS the message is signed as it is. *)
+Theorem c11_finish_plain_tsig : forall hmac, (forall a k d, length (hmac a k d) = output_size a) ->
+  forall p t d m a key sent_id,
+  prepared_repr p t -> t_alg t = salg_name (alg_s a) -> wf_smsg m ->
+  (N.of_nat (length (t_other t)) < 65536)%N -> (N.of_nat (length (dmode_mac d)) <= 65535)%N ->
+  (N.of_nat (wire_len (t_alg t) + 16 + output_size a + length (t_other t)) <= 65535)%N ->
+  finish_tail hmac (sent_prefix sent_id m) None (Some (tmode_of d a key, p)) =
+  Ok (sent_prefix sent_id m,
+      Some (fst (spec_sign (mac_fn_of hmac) d m t (alg_s a) key), Some (snd (spec_sign (mac_fn_of hmac) d m t (alg_s a) key)))).
+Proof. exact finish_plain_tsig_spec. Qed.
+
 (* Reading the TSIG RR of 4.2 (owner and algorithm in any letter case) yields the fields. *)
 Theorem c11_read : forall t, wf_stsig t ->
   read_tsig_try_from (tsig_read_rr t) = Ok (read_of t) /\
@@ -185,3 +212,5 @@ Print Assumptions c11_digest_injective.
 Print Assumptions c11_tamper_rejected.
 Print Assumptions c11_try_from_total.
 Print Assumptions c11_verify_total.
+Print Assumptions c11_finish_edns_tsig.
+Print Assumptions c11_finish_plain_tsig.
